@@ -41,15 +41,18 @@ Definition dec_account (s : sx) : option (N * account) :=
   | _ => None
   end.
 
+(* the non-zero slots *)
+Definition live_slots (acc : account) : list (N * N) :=
+  filter (fun kv => negb (snd kv =? 0)) (acc_storage acc).
 Definition enc_account (x : N * account) : sx :=
   let '(a, acc) := x in
   SL [sn a; sn (acc_balance acc); sn (acc_nonce acc); SB (acc_code acc);
-      SL (map (fun kv => SL [sn (fst kv); sn (snd kv)]) (acc_storage acc))].
+      SL (map (fun kv => SL [sn (fst kv); sn (snd kv)]) (live_slots acc))].
 Definition nonempty_account (x : N * account) : bool :=
   let acc := snd x in
   negb ((acc_balance acc =? 0) && (acc_nonce acc =? 0)
         && match acc_code acc with [] => true | _ => false end
-        && match acc_storage acc with [] => true | _ => false end).
+        && match live_slots acc with [] => true | _ => false end).
 Definition enc_log (l : log) : sx :=
   SL [sn (log_addr l); SL (map sn (log_topics l)); SB (log_data l)].
 
